@@ -14,6 +14,7 @@ CONSTANTS
   Gated = TRUE
   AllowGap = FALSE
   AllowPass = FALSE
+  AbortOnGap = TRUE
   DefectTakeAny = FALSE
   DefectNoJoin = FALSE
 INVARIANTS
